@@ -101,7 +101,9 @@ namespace pika::threads::detail {
         {
             {
                 pika::detail::unlock_guard<std::unique_lock<pika::detail::spinlock>> ul(l);
+                PIKA_VERIF_POINT("exitcb.run.before", this, 0, 0);
                 if (!exit_funcs_.front().empty()) exit_funcs_.front()();
+                PIKA_VERIF_POINT("exitcb.run.after", this, 0, 0);
             }
             exit_funcs_.pop_front();
         }
@@ -118,6 +120,7 @@ namespace pika::threads::detail {
         }
 
         exit_funcs_.push_front(f);
+        PIKA_VERIF_POINT("exitcb.add", this, 0, 0);
 
         return true;
     }
